@@ -383,12 +383,79 @@ def r5(F, R):
     R.floor("C09-R5", 7)
 
 
+def r6(F, R):
+    """A switch of the estimator windows is followed, in the same draw, by a re-estimate of the transformation."""
+    R.rule("C09-R6", "in GlobalStrategy::adapt every path from the estimator switch to the end of the draw calls MassMatrixAdaptStrategy::adapt exactly once "
+                     "(the switch forces the update, whatever mass_matrix_update_freq is and in the early phase too): the transformation in use never stays on "
+                     "an estimate from windows that were already discarded")
+    b = global_adapt(F)
+    if b is None:
+        return
+    sw = b.calls_to(lambda c: path_ends(c["path"], "MassMatrixAdaptStrategy::switch"))
+    ad = b.calls_to(lambda c: path_ends(c["path"], "MassMatrixAdaptStrategy::adapt"))
+    if len(sw) != 1 or not ad:
+        R.bad("C09-R6", b.path + ":switch-forces-update", b.path, "expected one switch call and at least one adapt call, found %d / %d" % (len(sw), len(ad)))
+        return
+    sbb, st = sw[0]
+    site = "%s @%s" % (b.path, loc(st["span"]))
+    # feasible continuation after the switch: constants assigned on the way (force_update = true) decide `if force_update | (..)`
+    known = K.known_bools_at(b, sbb)     # e.g. `let force_update = could_switch && !is_late; if force_update { switch(); .. }`
+    reach = b.reach_feasible(st["target"], (), known) if st.get("target") is not None else set()
+    exits = [x for x in reach if b.blocks[x]["term"]["k"] == "return"]
+    adbs = [bb for bb, _t in ad if bb in reach]
+    # every feasible path to a return passes an adapt call: remove the adapt blocks and see whether a return is still reachable
+    skip = b.reach_feasible(st["target"], adbs, known) if st.get("target") is not None else set()
+    missed = [x for x in skip if b.blocks[x]["term"]["k"] == "return"]
+    if adbs and exits and not missed:
+        R.ok("C09-R6", b.path + ":switch-forces-update", site, "after switch() every path re-estimates the transformation (adapt) before the draw ends")
+    else:
+        R.bad("C09-R6", b.path + ":switch-forces-update", site, "after switch() a path reaches the end of the draw without MassMatrixAdaptStrategy::adapt: the transformation "
+              "keeps an estimate of the discarded windows until the next scheduled update")
+    R.floor("C09-R6", 1)
+
+
+def r7(F, R):
+    """What the adaptation collectors are told about a draw is what the caller is told."""
+    R.rule("C09-R7", "in nuts::draw, the SampleInfo given to Collector::register_draw is the SampleInfo returned with that draw (same value): a divergent draw is "
+                     "registered as divergent, so the good-draw filter of the mass-matrix collectors (C09-R5) sees it")
+    for b in [x for x in F.bodies.values() if x.kind != "closure" and x.calls_to(lambda c: path_ends(c["path"], "NutsTree::extend")) and x.fn_name != "extend"]:
+        regs = b.calls_to(lambda c: path_ends(c["path"], "Collector::register_draw"))
+        for i, (bb, t) in enumerate(regs):
+            key = "%s:register#%d" % (b.path, i)
+            site = "%s @%s" % (b.path, loc(t["span"]))
+            info_op = next((a for a in t["args"] if a["k"] in ("copy", "move") and path_ends((b.local_ty(a["pl"]["l"]) or "").replace("&", "").strip(), "SampleInfo")), None)
+            if info_op is None:
+                R.bad("C09-R7", key, site, "register_draw call without a SampleInfo operand")
+                continue
+            il = K.root_local(b, info_op)
+            # the (state, info) tuple built after this call on the way to the return
+            rets = []
+            for x in sorted(b.reach_from(t["target"])) if t.get("target") is not None else []:
+                for st in b.blocks[x]["stmts"]:
+                    if st["k"] == "assign" and st["rv"]["k"] == "agg" and st["rv"].get("ak") in ("tuple", "adt") and any(
+                            o["k"] in ("copy", "move") and path_ends((b.local_ty(o["pl"]["l"]) or "").strip(), "SampleInfo") for o in st["rv"]["ops"]):
+                        for o in st["rv"]["ops"]:
+                            if o["k"] in ("copy", "move") and path_ends((b.local_ty(o["pl"]["l"]) or "").strip(), "SampleInfo"):
+                                rets.append(K.root_local(b, o))
+            if rets and all(r_ == il for r_ in rets):
+                R.ok("C09-R7", key, site, "registered info is the returned info")
+            elif not rets:
+                R.ok("C09-R7", key, site, "no (state, info) pair is built after this registration on its paths")
+            else:
+                R.bad("C09-R7", key, site, "the draw is registered with one SampleInfo and returned with another: the collectors and the caller are told different things "
+                      "(e.g. a divergence hidden from the adaptation)")
+    R.floor("C09-R7", 3)
+
+
+
 def run(F, R, config=None):
     r1(F, R)
     r2(F, R)
     r3(F, R)
     r4(F, R)
     r5(F, R)
+    r6(F, R)
+    r7(F, R)
     R.info("C09", "final window (only the step size adapts, symmetric statistic) is decided by C06-R4 / C07-R4")
     R.assume("window arithmetic (off-by-one in counts) is a value question and not decided")
 
